@@ -124,7 +124,9 @@ func c07Programs(w *core.W) []c07Prog {
 	}
 	sort.Strings(names)
 	unary := []string{"x", "x => [., 1]", "x where true", "x count", "x orderby .", "^(x where . < 4)", "x => {.}", "{x, 1}", "(a: x)", "[x, x]",
-		"x rank (r: .)", "x max .", "x min .", "//seq.join(\",\", x orderby . >> $\"${.}\")", "x => (v: .)", "x => cond . {1: 1, _: 0}", "{x: 1}"}
+		"x rank (r: .)", "x max .", "x min .", "//seq.join(\",\", x orderby . >> $\"${.}\")", "x => (v: .)", "x => cond . {1: 1, _: 0}", "{x: 1}",
+		// patterns: a set pattern picks members of an unordered collection
+		"cond x {{1, y}: y, _: \"no\"}", "cond x {{1, ...t}: t count, _: \"no\"}", "cond x {{y, ...}: y, _: \"no\"}", "cond x {[y, ...]: y, (a: y, ...): y, {1: y, ...}: y, _: \"no\"}"}
 	for _, n := range names {
 		for _, u := range unary {
 			add("let x = "+big[n]+"; "+u, "")
@@ -307,6 +309,6 @@ func c07Class(p c07Prog) string {
 
 var C07 = core.Check{
 	ID: "C07", Level: "exploration", Fn: checkC07, Rounds: roundsC07, EnvFor: c07Config, Watchdog: 120 * time.Second,
-	Rule: "environment configurations are enumerated: 16 (quick: 4 hash seeds x 4 Go-map iteration keys) / 64 (thorough) worker processes, each with the seeds of arr-ai/hash and frozen's internal hash fixed from VERIF_HASH_SEED and Go map iteration offsets/seeds fixed from VERIF_MAPITER (toolchain overlay). In every configuration the whole program set is evaluated (twice): every construction path of the representation space, all literal orderings (n<=4) of sets/unions/tuples/dicts/relations of every kind with orderby/=>/rank/nest on them, and 10 collections of 10-14 elements (above frozen's leaf size, where seeds change traversal order) under 17 unary forms, 23 relational forms (all joins, nest, rank with ties) and 26 set/tuple/dict forms incl. a dictionary key with 10 values. Every program must print identical bytes (fu.Repr or error class) in every configuration and twice within one process, and all literal orderings of one collection must print identically. non-trivial = large-collection or literal-ordering program",
+	Rule: "environment configurations are enumerated: 16 (quick: 4 hash seeds x 4 Go-map iteration keys) / 64 (thorough) worker processes, each with the seeds of arr-ai/hash and frozen's internal hash fixed from VERIF_HASH_SEED and Go map iteration offsets/seeds fixed from VERIF_MAPITER (toolchain overlay). In every configuration the whole program set is evaluated (twice): every construction path of the representation space, all literal orderings (n<=4) of sets/unions/tuples/dicts/relations of every kind with orderby/=>/rank/nest on them, and 10 collections of 10-14 elements (above frozen's leaf size, where seeds change traversal order) under 21 unary forms (incl. set, array, tuple and dict patterns applied to them), 23 relational forms (all joins, nest, rank with ties) and 26 set/tuple/dict forms incl. a dictionary key with 10 values. Every program must print identical bytes (fu.Repr or error class) in every configuration and twice within one process, and all literal orderings of one collection must print identically. non-trivial = large-collection or literal-ordering program",
 	Assume: []string{"the seed space is not exhausted: the claim is for all configurations of the enumerated family; a canary fails the run as vacuous if the family does not vary the enumeration order of a 12-element set or the iteration order of a 12-entry Go map", "orderby/order with tied keys are exempt by the property and not generated", "stack-allocated Go maps keep random seeds (arr.ai iterates heap maps only; the within-process double evaluation would expose a leak)"},
 }
